@@ -51,6 +51,12 @@ func ModelAdd(pre *sandbox.Snap, args []string) *AddModel {
 			m.ArgClasses = append(m.ArgClasses, "escapes-root")
 			continue
 		}
+		if _, readable := pre.Files["w/"+c]; strings.HasPrefix(pre.Odd["w/"+c], "symlink -> ") && !readable {
+			// a link to nowhere or to a directory: what naming it means is not settled by the statement
+			m.DomainOK = false
+			m.ArgClasses = append(m.ArgClasses, "link-to-directory-or-nowhere")
+			continue
+		}
 		if strings.HasPrefix(a, "/") && !ExistsOnDisk(pre, c) {
 			// an absolute spelling of something that is not on disk: outside the domain
 			m.DomainOK = false
@@ -614,6 +620,13 @@ func init() {
 // from left to right: every component but the last must be an existing directory, also in front of ".." and ".",
 // and a trailing "/" demands a directory.
 func resolvesOnDisk(sn *sandbox.Snap, a string) bool {
+	// the working directory is called "w": "../w" is the way out and back in
+	for a == "../w" || strings.HasPrefix(a, "../w/") {
+		a = strings.TrimPrefix(strings.TrimPrefix(a, "../w"), "/")
+		if a == "" {
+			return true
+		}
+	}
 	var cur []string
 	isDir := func() bool { return len(cur) == 0 || sn.Dirs["w/"+strings.Join(cur, "/")] }
 	for _, part := range strings.Split(a, "/") {
